@@ -24,9 +24,10 @@ from .. import h_F as H
 
 CFG = r"gmsol_treasury::states::config::Config::"
 BANK = r"gmsol_treasury::states::gt_bank::GtBank::"
-TOKEN = r"Iterator::next\(Iterator::enumerate\(\[T\]::iter\(Iterator::collect\(GtBank::tokens\(AccountLoader::load\(self\.gt_bank\)\?\)\)\)\)\)@Some\.0\.1"
-GT_AMOUNT = r"GtExchange::amount\(AccountLoader::load\(self\.exchange\)\?\)"
-REMAINING = r"GtBank::remaining_confirmed_gt_amount\(AccountLoader::load\(self\.gt_bank\)\?\)"
+# canonical renderings (H.canon): `X!` = success payload of X however unwrapped (`?`, let-else, match)
+TOKEN = r"Iterator::next\(Iterator::enumerate\(\[T\]::iter\(Iterator::collect\(GtBank::tokens\(AccountLoader::load\(self\.gt_bank\)!\)\)\)\)\)!\.1"
+GT_AMOUNT = r"GtExchange::amount\(AccountLoader::load\(self\.exchange\)!\)"
+REMAINING = r"GtBank::remaining_confirmed_gt_amount\(AccountLoader::load\(self\.gt_bank\)!\)"
 
 
 def _origin(e):
@@ -110,7 +111,7 @@ def run(ctx):
     if g:
         ws = [w for w in A.field_writes(g, r"\.amount$") if w["kind"] == "assign"]
         c = H.checked_op(ws[0]["rv"]) if len(ws) == 1 else None
-        ok = c is not None and c[0] == "checked" and c[1] == "sub" and str(c[2]) == ws[0]["path"] and str(c[3]) == "amount" and str(ws[0]["rv"]).endswith("?") and \
+        ok = c is not None and c[0] == "checked" and c[1] == "sub" and str(c[2]) == ws[0]["path"] and str(c[3]) == "amount" and H.unwrap_success(ws[0]["rv"]) is not None and \
             ws[0]["path"] == "GtBank::get_balance_mut(self, token)?.amount"
         ctx.ob("bookkeeping:record-out", ok, "record_transferred_out: balance(token).amount := checked_sub(balance(token).amount, amount)? (never below zero)", where=g.where())
         zero_ok = True
@@ -133,7 +134,7 @@ def run(ctx):
     if g:
         ws = H.writes_to(g, r"^self\.remaining_confirmed_gt_amount$")
         c = H.checked_op(ws[0][2]) if len(ws) == 1 else None
-        ok = c is not None and c[0] == "checked" and c[1] == "sub" and str(c[2]) == "self.remaining_confirmed_gt_amount" and str(c[3]) == "gt_amount" and str(ws[0][2]).endswith("?")
+        ok = c is not None and c[0] == "checked" and c[1] == "sub" and str(c[2]) == "self.remaining_confirmed_gt_amount" and str(c[3]) == "gt_amount" and H.unwrap_success(ws[0][2]) is not None
         ctx.ob("bookkeeping:record-claimed", ok, "record_claimed: remaining := checked_sub(remaining, gt_amount)?", where=g.where())
         H.atomic_update(ctx, "bookkeeping:record-claimed-atomic", g)
     g = ctx.fn(BANK + "remaining_confirmed_gt_amount")
@@ -147,7 +148,7 @@ def run(ctx):
             w = ws[0]
             rv = w["rv"]
             md_e = [x for x in rv.walk() if x.k == "call" and x.a[0] == "MulDiv::checked_mul_div"]
-            ok = len(md_e) == 1 and [str(x) for x in md_e[0].a[1]] == [w["path"], "numerator", "denominator"] and str(rv).endswith("?")
+            ok = len(md_e) == 1 and [str(x) for x in md_e[0].a[1]] == [w["path"], "numerator", "denominator"] and H.unwrap_success(rv) is not None
             facts = A.cmp_facts(g, w["bb"])
             ok = ok and A.has_fact(facts, ">=", r"^denominator$", r"^numerator$")
             ok = ok and any(o in (">=",) and str(a) == w["path"] and str(b) == str(rv) for (o, a, b) in facts if b is not None)
@@ -179,17 +180,17 @@ def _execute(ctx, prog, f):
     amt = tc.arg_expr(1)
     md = H.peel(amt)
     mds = f.calls_to(r"MulDiv>::checked_mul_div$|MulDiv::checked_mul_div$")
-    ok = md.k == "call" and md.a[0] == "MulDiv::checked_mul_div" and len(mds) == 1 and str(amt).endswith("?")
+    ok = md.k == "call" and md.a[0] == "MulDiv::checked_mul_div" and len(mds) == 1 and H.unwrap_success(amt) is not None
     ctx.ob("payout-formula:amount-source", ok and (mds[0].resolved or "").startswith("<u64 as gmsol_model::num::MulDiv>"),
            "the transferred amount is <u64 as MulDiv>::checked_mul_div(..) with None => Err (%s)" % (mds[0].resolved if mds else "?"), where=f.where(tc.line))
     if mds:
         m = mds[0]
-        a0, a1, a2 = [str(m.arg_expr(i)) for i in range(3)]
-        ok0 = re.match(r"^Option::(expect|unwrap)\(GtBank::get_balance\(AccountLoader::load\(self\.gt_bank\)\?, " + TOKEN + r"\)(, \"[^\"]*\")?\)$", a0) is not None
+        a0, a1, a2 = [H.canon(m.arg_expr(i)) for i in range(3)]
+        ok0 = re.match(r"^Option::(expect|unwrap)\(GtBank::get_balance\(AccountLoader::load\(self\.gt_bank\)!, " + TOKEN + r"\)(, \"[^\"]*\")?\)$", a0) is not None
         ctx.ob("payout-formula:balance", ok0, "multiplicand = gt_bank.get_balance(<current bank token>): %s" % a0[:90], where=f.where(m.line))
         ctx.ob("payout-formula:numerator", re.match("^" + GT_AMOUNT + "$", a1) is not None, "numerator = exchange.amount(): %s" % a1, where=f.where(m.line))
         ctx.ob("payout-formula:denominator", re.match("^" + REMAINING + "$", a2) is not None, "denominator = gt_bank.remaining_confirmed_gt_amount(): %s" % a2, where=f.where(m.line))
-        facts = A.cmp_facts(f, m.bb)
+        facts = H.canon_facts(f, m.bb)
         ctx.ob("payout-formula:share-at-most-one", A.has_fact(facts, ">=", "^" + REMAINING + "$", "^" + GT_AMOUNT + "$"),
                "the share is computed under remaining_confirmed_gt_amount >= gt_amount (amount <= balance)", where=f.where(m.line))
     # pairing
@@ -197,34 +198,34 @@ def _execute(ctx, prog, f):
     ok = len(ro) == 1
     if ok:
         r = ro[0]
-        ok = _origin(r.arg_expr(2)) == _origin(amt) and _origin(amt)[0] is not None and str(r.arg_expr(2)).endswith("?")
-        ok_tok = re.match("^" + TOKEN + "$", str(r.arg_expr(1))) is not None and str(r.arg_expr(0)) == "AccountLoader::load_mut(self.gt_bank)?"
+        ok = _origin(r.arg_expr(2)) == _origin(amt) and _origin(amt)[0] is not None and H.unwrap_success(r.arg_expr(2)) is not None
+        ok_tok = re.match("^" + TOKEN + "$", H.canon(r.arg_expr(1))) is not None and H.canon(r.arg_expr(0)) == "AccountLoader::load_mut(self.gt_bank)!"
         ctx.ob("payout-paired:same-amount", ok, "record_transferred_out receives the very value given to transfer_checked", where=f.where(r.line))
         ctx.ob("payout-paired:same-token", ok_tok, "record_transferred_out(gt_bank.load_mut()?, <current bank token>, ..)", where=f.where(r.line))
-        ts = anchor.try_switch_of(f, tc)
-        tr = anchor.try_switch_of(f, r)
+        ts = H.success_edge(f, tc)
+        tr = H.success_edge(f, r)
         ok = ts is not None and tr is not None and H.must_pass_to_ok(f, ts[1], [tr[1]]) and f.dominates(ts[1], r.bb)
         ctx.ob("payout-paired:always-recorded", ok, "from the Ok edge of transfer_checked every path to an Ok exit goes through the Ok edge of record_transferred_out(..)?", where=f.where(r.line))
     else:
         ctx.ob("payout-paired:same-amount", False, "expected one record_transferred_out call, found %d" % len(ro), where=f.where())
     # routing
-    cx = str(tc.arg_expr(0))
-    facts = A.cmp_facts(f, tc.bb)
+    cx = H.canon(tc.arg_expr(0))
+    facts = H.canon_facts(f, tc.bb)
     va = f.calls_to(r"validate_associated_token_account$")
     ok = len(va) == 1 and f.dominates(va[0].bb, tc.bb)
     if ok:
         v = va[0]
-        ts = anchor.try_switch_of(f, v)
-        ok = ts is not None and f.dominates(ts[1], tc.bb) and str(v.arg_expr(1)) == "Key::key(self.gt_bank)" and re.match("^" + TOKEN + "$", str(v.arg_expr(2))) is not None
-        vault = str(v.arg_expr(0))
+        ts = H.success_edge(f, v)
+        ok = ts is not None and f.dominates(ts[1], tc.bb) and H.canon(v.arg_expr(1)) == "Key::key(self.gt_bank)" and re.match("^" + TOKEN + "$", H.canon(v.arg_expr(2))) is not None
+        vault = H.canon(v.arg_expr(0))
         ok = ok and ("from: ToAccountInfo::to_account_info(%s)" % vault) in cx
     ctx.ob("payout-paired:from-bank-vault", ok, "the source is validated (?) as the associated token account of (gt_bank, token) before the transfer", where=f.where(tc.line))
     ok = any(o == "==" and re.search(r"accessor::authority\(", str(a) + str(b)) and re.search(r"Key::key\(self\.owner\)", str(a) + str(b)) for (o, a, b) in facts if b is not None)
     au = f.calls_to(r"accessor::authority$")
-    tgt = str(au[0].arg_expr(0)) if au else "?"
+    tgt = H.canon(au[0].arg_expr(0)) if au else "?"
     ok = ok and ("to: ToAccountInfo::to_account_info(%s)" % tgt) in cx
     ctx.ob("payout-paired:to-owner", ok, "the destination is the account whose SPL authority was compared equal to self.owner.key()", where=f.where(tc.line))
-    ctx.ob("payout-paired:authority", "authority: ToAccountInfo::to_account_info(self.gt_bank)" in cx and "GtBank::signer(AccountLoader::load(self.gt_bank)?)" in cx,
+    ctx.ob("payout-paired:authority", "authority: ToAccountInfo::to_account_info(self.gt_bank)" in cx and "GtBank::signer(AccountLoader::load(self.gt_bank)!)" in cx,
            "the transfer is authorised by the gt_bank PDA (its own signer seeds)", where=f.where(tc.line))
     ok = any(o == "==" and re.search(TOKEN, str(a) + "|" + str(b)) and re.search(r"\.key", str(a) + "|" + str(b)) for (o, a, b) in facts if b is not None)
     ctx.ob("payout-paired:mint-is-token", ok, "the mint account passed for this slot has the bank token's key", where=f.where(tc.line))
@@ -232,29 +233,29 @@ def _execute(ctx, prog, f):
     cl = f.calls_to(r"gmsol_store::cpi::close_gt_exchange$")
     am = f.calls_to(r"gmsol_store::states::gt::GtExchange::amount$")
     rc = f.calls_to(BANK + "record_claimed$")
-    ok = len(cl) == 1 and len(am) == 1 and f.dominates(am[0].bb, cl[0].bb) and str(am[0].arg_expr(0)) == "AccountLoader::load(self.exchange)?"
+    ok = len(cl) == 1 and len(am) == 1 and f.dominates(am[0].bb, cl[0].bb) and H.canon(am[0].arg_expr(0)) == "AccountLoader::load(self.exchange)!"
     ctx.ob("claimed:amount-read-before-close", ok, "exchange.amount() is read (once) before the exchange account is closed", where=f.where())
     if len(cl) == 1:
-        ts = anchor.try_switch_of(f, cl[0])
+        ts = H.success_edge(f, cl[0])
         eff = [tc.bb] + [c.bb for c in ro] + [c.bb for c in rc] + [bb for bb, k, e in f.exits() if k == "ok"]
         ok = ts is not None and all(f.dominates(ts[1], b) for b in eff)
         ctx.ob("claimed:close-first", ok, "the Ok edge of close_gt_exchange(..)? dominates the transfer, both records and every Ok exit (%d sites)" % len(eff), where=f.where(cl[0].line))
         cc = f.calls_to(r"CompleteGtExchange::<'info>::close_gt_exchange_ctx$|close_gt_exchange_ctx$")
-        ok = "CompleteGtExchange::close_gt_exchange_ctx(self)" in str(cl[0].arg_expr(0)) and "Config::signer(AccountLoader::load(self.config)?)" in str(cl[0].arg_expr(0))
+        ok = "CompleteGtExchange::close_gt_exchange_ctx(self)" in H.canon(cl[0].arg_expr(0)) and "Config::signer(AccountLoader::load(self.config)!)" in H.canon(cl[0].arg_expr(0))
         g = ctx.fn(r"gmsol_treasury::instructions::gt_bank::CompleteGtExchange::<'info>::close_gt_exchange_ctx")
         if g:
             ex = " ".join(str(e) for _, _, e in g.exits())
             ok = ok and all(s in ex for s in ("owner: ToAccountInfo::to_account_info(self.owner)", "vault: ToAccountInfo::to_account_info(self.gt_exchange_vault)",
                                               "exchange: ToAccountInfo::to_account_info(self.exchange)", "authority: ToAccountInfo::to_account_info(self.config)"))
         ctx.ob("claimed:close-accounts", ok, "the closed exchange is (self.exchange, self.gt_exchange_vault, self.owner) under the treasury config's authority", where=f.where(cl[0].line))
-    ok = len(rc) == 1 and re.match("^" + GT_AMOUNT + "$", str(rc[0].arg_expr(1))) is not None and str(rc[0].arg_expr(0)) == "AccountLoader::load_mut(self.gt_bank)?"
+    ok = len(rc) == 1 and re.match("^" + GT_AMOUNT + "$", H.canon(rc[0].arg_expr(1))) is not None and H.canon(rc[0].arg_expr(0)) == "AccountLoader::load_mut(self.gt_bank)!"
     n_zero = n_full = 0
     if ok:
-        tr = anchor.try_switch_of(f, rc[0])
+        tr = H.success_edge(f, rc[0])
         for bb, k, e in f.exits():
             if k != "ok":
                 continue
-            fs = A.cmp_facts(f, bb)
+            fs = H.canon_facts(f, bb)
             if A.has_fact(fs, "==", "^" + GT_AMOUNT + "$", r"^0$"):
                 n_zero += 1
                 ok = ok and not f.can_reach(tc.bb, bb)
